@@ -213,3 +213,45 @@ func everyArgumentEvaluated(c *Ctx, rule string) {
 		c.undecided(rule, "every-argument-evaluated", p.Pos(ee.Pos()), "no evalExprList call on the arguments of an ExprCall found")
 	}
 }
+
+// objectKeyKindFirst: the key-kind fault of object indexing is detected before the object is looked at.
+func objectKeyKindFirst(c *Ctx, rule string) {
+	p := c.P
+	c.note("%s object-key-kind-first: in GetMember every lookup in the object's map happens where the key's tag is known to be string or number (the `objects can only be indexed with numbers or strings` error is raised first): a key of another kind never resolves to a member, whatever members the object has.", rule)
+	n := 0
+	// (SetMember has no test of its own: every caller reads the member through GetMember with the same
+	// key first — evalBinaryExpr's index arm, pluck — or passes a key it made itself)
+	for _, name := range []string{"(*Value).GetMember"} {
+		fn := p.LangFunc(name)
+		if fn == nil {
+			c.undecided(rule, name, "", "anchor not found")
+			continue
+		}
+		ms := p.maySetOf(fn, "member.Tag", valueTagNames(p))
+		allInstrs(fn, func(in ssa.Instruction) {
+			var m ssa.Value
+			switch x := in.(type) {
+			case *ssa.Lookup:
+				m = x.X
+			case *ssa.MapUpdate:
+				m = x.Map
+			default:
+				return
+			}
+			if !strings.Contains(p.Render(m), "v.Obj") {
+				return
+			}
+			n++
+			var other []string
+			for _, t := range ms.At(in.Block()) {
+				if t != "ValueStr" && t != "ValueNum" {
+					other = append(other, t)
+				}
+			}
+			c.check(len(other) == 0, rule, fmt.Sprintf("object-key-kind-first #%d in %s", n, shortName(fn)), p.InstrPos(in), "the key is a string or a number here", "the object's map is consulted where the key may still be of kind {"+strings.Join(other, ", ")+"}: such a key renders as \"\" and silently resolves to the member named \"\" instead of raising the indexing error")
+		})
+	}
+	if n < 1 {
+		c.undecided(rule, "object-key-kind-first instance-floor", "", fmt.Sprintf("%d map accesses found, 1 expected", n))
+	}
+}
